@@ -857,6 +857,15 @@ fn run_session_inner(spec: &SessionSpec, verbose: bool) -> SessionResult {
             });
             break;
         }
+        if exp_out != r.out && reads_poisoned {
+            // (the same known defect seen through `print`: the value printed is the never-assigned slot)
+            findings.push(Finding {
+                class: "read-of-name-declared-by-failed-line".into(),
+                key: "compiler-knows-the-name-machine-never-assigned-it".to_string(),
+                detail: format!("line {} ({:?}): expected output {:?}, got {:?}", li, text, exp_out, r.out),
+            });
+            break;
+        }
         if exp_out != r.out {
             findings.push(Finding {
                 class: "line-output-differs".into(),
@@ -1646,8 +1655,19 @@ impl<'a> SGen<'a> {
             // a name that only a failed line declared is free: declare it and read it
             let i = self.rng.usize(self.failed_names.len());
             let name = self.failed_names.remove(i);
-            let ty = self.with_gen(|g| g.value_ty());
-            let e = self.with_gen(|g| g.expr(&ty, 2));
+            let mut ty = self.with_gen(|g| g.value_ty());
+            // (never in terms of itself: 4.3 item 2)
+            let mut e = self.with_gen(|g| g.expr(&ty, 2));
+            for _ in 0..6 {
+                if !idents(&e).contains(&name) {
+                    break;
+                }
+                e = self.with_gen(|g| g.expr(&ty, 0));
+            }
+            if idents(&e).contains(&name) {
+                ty = Ty::Int;
+                e = "7".to_string();
+            }
             let e = Self::wrap_int(&ty, e);
             let l = line(
                 "redeclare-name-of-failed-line",
